@@ -184,6 +184,20 @@ fn translit_flat(d: Dialect, toks: &[LexTok], lo: usize, hi: usize) -> Result<St
             i += 1;
             continue;
         }
+        // a MySQL table value constructor (VALUES at the start of a parenthesised range) takes ROW(..) rows only
+        if d == Dialect::Mysql && i == lo && lo > 0 && is_w(Some(t), "VALUES") && is_p(toks.get(lo - 1), "(") {
+            let mut k = i + 1;
+            while k < hi {
+                if is_p(toks.get(k), "(") {
+                    if !(k > 0 && is_w(toks.get(k - 1), "ROW")) {
+                        return Err("a MySQL VALUES table constructor row is written without ROW".into());
+                    }
+                    k = matching(toks, k).ok_or("unbalanced parentheses")? + 1;
+                } else {
+                    k += 1;
+                }
+            }
+        }
         out.push(spell(d, &t.tok, false)?);
         i += 1;
     }
@@ -448,6 +462,39 @@ fn run_literals(rep: &Arc<Report>) -> u64 {
         vals.push(c.into());
     }
     let mut n = 0;
+    // VALUES tables of 1, 2 and 3 columns x 1 and 2 rows
+    for cols in 1..=3usize {
+        for rows in 1..=2usize {
+            n += 1;
+            let mk = |d: Dialect| {
+                let mut q = Query::select();
+                q.column(Asterisk);
+                match cols {
+                    1 => q.from_values((0..rows).map(|r| 10 + r as i32).collect::<Vec<_>>(), Alias::new("vv")),
+                    2 => q.from_values((0..rows).map(|r| (10 + r as i32, "it's")).collect::<Vec<_>>(), Alias::new("vv")),
+                    _ => q.from_values((0..rows).map(|r| (10 + r as i32, "it's", 2.5f64)).collect::<Vec<_>>(), Alias::new("vv")),
+                };
+                match d {
+                    Dialect::Mysql => q.to_string(MysqlQueryBuilder),
+                    Dialect::Postgres => q.to_string(PostgresQueryBuilder),
+                    Dialect::Sqlite => q.to_string(SqliteQueryBuilder),
+                }
+            };
+            let fail = |sig: &str, detail: String| {
+                rep.raw_failures.inc();
+                rep.violation(Violation { key: format!("values-table|{sig}|{cols} columns"), what: format!("VALUES table of {cols} columns x {rows} rows: {detail}"), case: json!({"kind": "literal", "values_table": [cols, rows]}) });
+            };
+            match three_texts(mk) {
+                Err(e) => fail("cannot-transliterate", e),
+                Ok(texts) => {
+                    let rows_: Vec<Result<Vec<String>, String>> = texts.iter().map(|t| with_db(|db| db.query(t, &[])).map(|r| row_list(&r))).collect();
+                    if rows_[0] != rows_[2] || rows_[1] != rows_[2] || rows_[2].is_err() {
+                        fail("denotes-different-rows", format!("renderings (as {:?}) return {:?}", texts, rows_));
+                    }
+                }
+            }
+        }
+    }
     for v in &vals {
         for form in ["select", "where"] {
             n += 1;
